@@ -247,6 +247,7 @@ func checkCLI(t rep.Fataler, c AgentCase) {
 	// what the env: entry evaluates to has changed by the time of the retry, and
 	// so has what the producer would print: the retry runs the RECORDED steps
 	// with the recorded variables and the recorded output
+	os.WriteFile(filepath.Join(work, "allok"), nil, 0o644) // in the retry every step succeeds (also one that runs for the first time)
 	os.WriteFile(filepath.Join(work, "tag.txt"), []byte("run-B\n"), 0o644)
 	os.WriteFile(filepath.Join(work, "outv.txt"), []byte("printed-only-if-the-producer-ran-again\n"), 0o644)
 
